@@ -349,13 +349,13 @@ func (r c12Rcv) rec(vals ...interface{}) string {
 	r.env.received = strings.Join(parts, " | ")
 	return "RET"
 }
-func (r c12Rcv) M0() string                                       { return r.rec() }
-func (r c12Rcv) M1(s string) string                               { return r.rec(s) }
-func (r c12Rcv) M2(s string, i int) string                        { return r.rec(s, i) }
-func (r c12Rcv) MP(p *T) string                                   { return r.rec(p) }
-func (r *c12Rcv) PM1(i int) string                                { return r.rec(i) }
-func (r c12Rcv) MM(s string, m map[string]interface{}) string     { return r.rec(s, m) }
-func (r c12Rcv) MH(b bool, h plush.HelperContext) string          { return r.rec(b, h) }
+func (r c12Rcv) M0() string                                   { return r.rec() }
+func (r c12Rcv) M1(s string) string                           { return r.rec(s) }
+func (r c12Rcv) M2(s string, i int) string                    { return r.rec(s, i) }
+func (r c12Rcv) MP(p *T) string                               { return r.rec(p) }
+func (r *c12Rcv) PM1(i int) string                            { return r.rec(i) }
+func (r c12Rcv) MM(s string, m map[string]interface{}) string { return r.rec(s, m) }
+func (r c12Rcv) MH(b bool, h plush.HelperContext) string      { return r.rec(b, h) }
 func (r c12Rcv) MV(i int, xs ...string) string {
 	if len(xs) == 0 {
 		xs = []string{}
@@ -608,12 +608,12 @@ func c12Run(b *core.B) {
 
 func init() {
 	core.Register(&core.Prop{
-		ID:    "C12",
-		Level: "exploration",
-		Rule: "helper signatures built at run time with reflect.FuncOf/MakeFunc (recording bodies): 0-2 fixed parameters over {string, int, bool, interface{}, *T, []int, float64} x trailing {none, map[string]interface{}, hctx.Map} x {none, plush.HelperContext, hctx.HelperContext} or a variadic tail {...string, ...int, ...interface{}, ...float64} x 6 result shapes ((), (T), (T,nil), (T,err), (nil error), (err)) signatures, crossed with every call of 0-3 arguments over 9 argument kinds (string, int, float, nil, hash literal, pointer variable, bool, recorded call, []int variable) with and without a block (all pairs in thorough, a stratified 1/60 sample in quick), plus 8 recording methods on struct receivers (value receiver, pointer receiver, receiver reached through a field) crossed with the same calls, plus random 3-parameter signatures and 4-argument calls. Oracle: a reference binder written from the property text predicts accept/reject and the exact received arguments; the recording body reports what arrived (values, zero values for nil, auto-supplied map/context incl. the block rendered through the context, variadic tail), the recorded argument trace, invocation count, and result handling. Non-trivial = judged (signature, call) pair.",
-		Assume:  []string{"too few non-optional arguments is not judged (the property is silent)", "assignability is Go's reflect AssignableTo, as the property words it"},
-		Batches: batchesQT(16, 64),
-		Run:     c12Run,
+		ID:         "C12",
+		Level:      "exploration",
+		Rule:       "helper signatures built at run time with reflect.FuncOf/MakeFunc (recording bodies): 0-2 fixed parameters over {string, int, bool, interface{}, *T, []int, float64} x trailing {none, map[string]interface{}, hctx.Map} x {none, plush.HelperContext, hctx.HelperContext} or a variadic tail {...string, ...int, ...interface{}, ...float64} x 6 result shapes ((), (T), (T,nil), (T,err), (nil error), (err)) signatures, crossed with every call of 0-3 arguments over 9 argument kinds (string, int, float, nil, hash literal, pointer variable, bool, recorded call, []int variable) with and without a block (all pairs in thorough, a stratified 1/60 sample in quick), plus 8 recording methods on struct receivers (value receiver, pointer receiver, receiver reached through a field) crossed with the same calls, plus random 3-parameter signatures and 4-argument calls. Oracle: a reference binder written from the property text predicts accept/reject and the exact received arguments; the recording body reports what arrived (values, zero values for nil, auto-supplied map/context incl. the block rendered through the context, variadic tail), the recorded argument trace, invocation count, and result handling. Non-trivial = judged (signature, call) pair.",
+		Assume:     []string{"too few non-optional arguments is not judged (the property is silent)", "assignability is Go's reflect AssignableTo, as the property words it"},
+		Batches:    batchesQT(16, 64),
+		Run:        c12Run,
 		Exhaustive: func(t core.Tier) bool { return t == core.Thorough },
 	})
 }
